@@ -94,6 +94,12 @@ func (app *App) checkRecovery() {
 		return
 	}
 
+	if sstatus == nil {
+		// stuck old master which is (again) the recorded master: nothing to compare with
+		app.logger.Info().Msg("recovery: local node is the recorded master and has stuck processes, waiting")
+		return
+	}
+
 	app.logger.Info().Msgf("recovery: master %s has GTIDs %s", master, mgtids)
 	app.logger.Info().Msgf("recovery: local node %s has GTIDs %s", localNode.Host(), sstatus.GetExecutedGtidSet())
 
